@@ -210,6 +210,9 @@ def run(ctx):
     quick = ctx.tier == 'quick'
     cat, cls = objs.catalogue(), objs.classes()
     run_model(ctx, 'params_all_classes', cfg('ClsQuick' if quick else 'ClsAll', 'ActsParams', 1, 2), cat, cls, 'C17')
+    if quick:
+        # the classes left out above: every constructor with valid and one-bad-argument lists (no assignment histories)
+        run_model(ctx, 'constructors_of_the_other_classes', cfg('ClsQuickRest', 'ActsCtor', 1, 1), cat, cls, 'C17')
     run_model(ctx, 'meta_ops', cfg('ClsPoint', 'ActsMeta', 1, 3 if quick else 4), cat, cls, 'C17')
     simulate(ctx, cfg('ClsFew', 'ActsAll', 1, 20), cat, cls, 'C17', 80 if quick else 3000, 21, ctx.seed + 17)
     from . import lists
